@@ -39,13 +39,11 @@ Definition no_unknown (r : kinfo) : bool := forallb (fun a => match a with Unkno
 Theorem keys_recognised : forallb no_unknown key_table = true.
 Proof. vm_compute. reflexivity. Qed.
 
-Theorem raw_key_classes : map k_class (filter raw_only key_table) =
-  ["Vector2D"; "Point2D"; "Arc2D"; "Vector3D"; "Point3D"; "Plane"; "Sphere"; "Cone"; "Cylinder"].
+(* every class keys its equality and hash on the defining values themselves (since the repair of the hash-keyed __key methods) *)
+Theorem raw_key_classes : map k_class (filter raw_only key_table) = map k_class key_table.
 Proof. vm_compute. reflexivity. Qed.
 
-Theorem hashed_key_classes : map k_class (filter (fun r => negb (raw_only r)) key_table) =
-  ["Ray2D"; "LineSegment2D"; "Polyline2D"; "Polygon2D"; "Mesh2D"; "Ray3D"; "LineSegment3D"; "Arc3D"; "Polyline3D"; "Mesh3D";
-   "Polyface3D"; "Face3D"].
+Theorem hashed_key_classes : map k_class (filter (fun r => negb (raw_only r)) key_table) = [].
 Proof. vm_compute. reflexivity. Qed.
 
 (* model of the two kinds of key over coordinate lists.  CPython: hash of an integer-valued float n is n, except
@@ -61,6 +59,6 @@ Proof. unfold raw_key. tauto. Qed.
 Theorem equal_coordinates_equal_hashed_key : forall a b, a = b -> hashed_key a = hashed_key b.
 Proof. intros a b ->. reflexivity. Qed.
 
-(* the recorded finding: a hashed key identifies different coordinates *)
+(* why a key made of hash() values would be wrong (the defect repaired in /repo): it identifies different coordinates *)
 Theorem hashed_key_collision : exists a b, a <> b /\ hashed_key a = hashed_key b.
 Proof. exists [0; 0; 4; 0; 4; -1], [0; 0; 4; 0; 4; -2]. split; [discriminate| reflexivity]. Qed.
